@@ -114,10 +114,11 @@ DaoReqs ==
     \/ TxStep(MkParam(AclOwner(s, "gov/acl"), "gov/acl", TRUE, Id))
     \/ \E from \in {Nm.owner, Nm.unrelated} : TxStep(MkParam(from, "pos/MaxJailedBlocks", TRUE, Id))
 
-\* upgrade messages; a version upgrade on the height-0 chain names a past height (see DESIGN: the
-\* small-number stand-in for the hard-coded codec height would otherwise put the process back
-\* before its codec upgrade)
-VerHeight == IF IsZero THEN 2 ELSE H0 + 6
+\* upgrade messages.  A version upgrade names a PAST height (2, then 3): chainsim's small codec heights
+\* stand for "past the hard-coded codec upgrade height (30024)"; a stored old-upgrade height above the
+\* current height would put the stand-in process back BEFORE its codec upgrade, which cannot happen on a
+\* chain beyond height 30024.  The code accepts any non-zero height.
+VerHeight == 2
 UpgradeMsgs ==
     { <<VerHeight, "0.2.0", << <<"F1", H0 + 3>> >> >>,
       <<VerHeight + 1, "0.3.0", <<>> >>,
